@@ -56,9 +56,44 @@ Definition run_replace (v : val) : val :=
   let only := as_bool (fld 3 v) in
   of_bytes (concat (map (print_event template names lt only) (as_list (fld 4 v)))).
 
+(* ---- kind 1903: the call site of the Replacer in the standard printer (Model/ReplaceGlue.v) ----
+   event = (buffer rs re window_len table); the table is the matcher on the window the harness
+   computed from the documented rule; a window of another length than the model's is reported. *)
+From RG Require Import Model.ReplaceGlue.
+
+Definition glue_event (template : bytes) (names : list (bytes * N)) (lt : lineterm) (only ml : bool)
+                      (ev : val) : option bytes :=
+  let buf := as_bytes (fld 0 ev) in
+  let rs := as_nat (fld 1 ev) in
+  let re := as_nat (fld 2 ev) in
+  let wlen := as_nat (fld 3 ev) in
+  let tbl := map (as_option decode_caps_tbl) (as_list (fld 4 ev)) in
+  if Nat.eqb (length (replace_haystack ml lt buf re)) wlen then
+    standard_matched_output (table_matcher tbl) (names_fn names) ml lt only buf (rs, re) template
+  else Some [255; 87; 73; 78]%N.             (* window mismatch: flagged by the comparison *)
+
+Fixpoint glue_events (f : val -> option bytes) (evs : list val) (acc : bytes) : option bytes :=
+  match evs with
+  | [] => Some acc
+  | ev :: evs' => match f ev with None => None | Some b => glue_events f evs' (acc ++ b) end
+  end.
+
+(* result: (panicked output) *)
+Definition run_glue (v : val) : val :=
+  let template := as_bytes (fld 0 v) in
+  let names := decode_names (fld 1 v) in
+  let lt := if as_bool (fld 2 v) then LTCrlf else LTByte 10%N in
+  let only := as_bool (fld 3 v) in
+  let ml := as_bool (fld 4 v) in
+  match glue_events (glue_event template names lt only ml) (as_list (fld 5 v)) [] with
+  | None => VL [of_bool true; of_bytes []]
+  | Some b => VL [of_bool false; of_bytes b]
+  end.
+
 Definition entry (k : N) (v : val) : option val :=
   match k with
   | 1901%N => Some (run_interpolate v)
   | 1902%N => Some (run_replace v)
+  | 1903%N => Some (run_glue v)
   | _ => None
   end.
